@@ -2,8 +2,7 @@
   Refine, part 11b — the search, continued: the clause compiled by `call/1` (`tc_succ`), the
   promises (`tp_succ`), and the induction on the fuel of the search (`t_all`).
 -/
-import PrologVerif.Proofs.RefineDfs
-import PrologVerif.Proofs.RefineCallSim
+import PrologVerif.Proofs.RefineDfsAlt
 namespace PrologVerif.Refine
 open PrologVerif PrologVerif.VM PrologVerif.DecompileCompile PrologVerif.Activation
   PrologVerif.RefineITree PrologVerif.RefineRobinson PrologVerif.VMScoped
@@ -11,48 +10,6 @@ open PrologVerif PrologVerif.VM PrologVerif.DecompileCompile PrologVerif.Activat
 
 section
 variable {fl : Bool} {tmpl : Term} {max : Nat} {prog : List Term} {F : Nat}
-
-theorem Forall2.imp_mem {α β : Type} {R S : α → β → Prop} {as : List α} {bs : List β} (h : Forall2 R as bs)
-    (hRS : ∀ a ∈ as, ∀ b, R a b → S a b) : Forall2 S as bs := by
-  induction h with
-  | nil => exact .nil
-  | cons hd _ ih => exact .cons (hRS _ (by simp) _ hd) (ih (fun a ha => hRS a (by simp [ha])))
-
-/-- below a cut parent the levels are at most its level -/
-theorem lev_le_of_drop {lv : Lv} {d : Nat} (h : LvOK lv d) {cp l : Nat} (hcp : lv.lev cp = some l)
-    {e : Nat × Option Nat} (he : e ∈ lv.dropWhile (fun e => e.1 ≠ cp)) {l' : Nat} (hl' : e.2 = some l') : l' ≤ l := by
-  have hmcp := Lv.mem_of_lev hcp
-  have hmono := h.mono
-  have hnd := h.nodup
-  clear hcp h
-  induction lv with
-  | nil => simp at hmcp
-  | cons a lv ih =>
-    by_cases ha : a.1 = cp
-    · simp only [List.dropWhile, ha, ne_eq, not_true_eq_false, decide_false] at he
-      have hacp : a = (cp, some l) := by
-        rcases List.mem_cons.1 hmcp with h | h
-        · exact h.symm
-        · exfalso
-          simp only [List.map_cons, List.nodup_cons] at hnd
-          exact hnd.1 (ha ▸ List.mem_map_of_mem (f := Prod.fst) h)
-      rcases List.mem_cons.1 he with h | h
-      · rw [h, hacp] at hl'
-        simp only [Option.some.injEq] at hl'
-        omega
-      · have := (List.pairwise_cons.1 hmono).1 e h l l' (by rw [hacp]) hl'
-        omega
-    · simp only [List.dropWhile, ha, ne_eq, not_false_eq_true, decide_true] at he
-      have hmcp' : (cp, some l) ∈ lv := by
-        rcases List.mem_cons.1 hmcp with h | h
-        · exact absurd (by rw [← h]) ha
-        · exact h
-      simp only [List.map_cons, List.nodup_cons] at hnd
-      exact ih he hmcp' (List.pairwise_cons.1 hmono).2 hnd.2
-
-theorem afterCut_answers (l : Nat) (r : SLD.Res) : (SLD.afterCut l r).answers = r.answers := by
-  unfold SLD.afterCut
-  split <;> rfl
 
 theorem tp_succ {k : Nat} (ihA : TAk fl tmpl max prog F k) (ihD : TDk fl tmpl max prog F k)
     (ihPall : ∀ j, j ≤ k → TPk fl tmpl max prog F j) (hprog : ∀ c ∈ prog, clauseS fl c = true) :
@@ -158,109 +115,10 @@ theorem tp_succ {k : Nat} (ihA : TAk fl tmpl max prog F k) (ihD : TDk fl tmpl ma
       · exact Or.inr (hm.from (Nat.le_refl _))
   | cut hans hlcp hN hW hcg hgr hco hq hbnd hs =>
     rename_i pc vars kk cp l env R q nv n r' N σ π D G'
-    -- the cut: everything created since `cp` was called is discarded
-    have hmem : (lv.map Prod.fst).contains cp = true := by
-      simpa using mem_ids_of_lev hlcp
-    rw [cut' (t := .afterCut pc vars kk [] [] env cp) (ts := []) rfl (by simp [cutPromise]) rfl hmem] at hd
-    have hf : afterChild ({ cutPromise pc vars kk env cp with cutParent := none }) = ({} : Pr) := by
-      simp [afterChild, cutPromise]
-    rw [hf] at hd
-    simp only [Option.map_eq_some_iff] at hd
-    obtain ⟨⟨sigA, mA⟩, hda, hpair⟩ := hd
-    simp only [Prod.mk.injEq] at hpair
-    obtain ⟨rfl, rfl⟩ := hpair
-    -- the path below the cut
-    let lv' : Lv := lv.dropWhile (fun e => e.1 ≠ cp)
-    have hsub : lv'.Sublist lv := List.dropWhile_sublist _
-    have hok' : LvOK lv' d := hok.drop cp
-    have hlive' : lv'.map Prod.fst = (lv.map Prod.fst).dropWhile (· ≠ cp) := map_fst_dropWhile cp lv
-    rw [← hlive'] at hda
-    have hin : ∀ it ∈ G', isCut it → ∀ l', lv.lev it.2 = some l' → lv'.lev it.2 = some l' := by
-      intro it hit hc l' hl'
-      have := mem_drop_of_le hok hlcp hl' (hbnd it hit hc l' hl')
-      exact Lv.lev_of_mem hok'.nodup this
-    have hgr' : GRel lv' σ π D G' R := by
-      refine Forall2.imp_mem hgr ?_
-      rintro it hit fr ⟨hg, l0, hfr, hl0⟩
-      exact ⟨hg, l0, hfr, fun hc => hin it hit hc l0 (hl0 hc)⟩
-    have hco' : CutsOK lv' G' := by
-      refine ⟨fun it hit hc => ?_, ?_⟩
-      · obtain ⟨l0, hl0⟩ := hco.1 it hit hc
-        exact ⟨l0, hin it hit hc l0 hl0⟩
-      · refine hco.2.imp ?_
-        intro a b hab hca hcb la lb hla hlb
-        exact hab hca hcb la lb (lev_of_sub hsub hok.nodup hla) (lev_of_sub hsub hok.nodup hlb)
-    cases k with
-    | zero => simp [dfsAlts] at hda
-    | succ k0 =>
-    have ihP0 : TPk fl tmpl max prog F k0 := ihPall k0 (Nat.le_succ k0)
-    cases hev : evalThunk F (Thunk.afterCut pc vars kk [] [] env cp) (tick m) with
-    | none => rw [dfsAlts_thunk_none (sem := VM.sem F) (by exact hev)] at hda; cases hda
-    | some pr =>
-      obtain ⟨q0, m1⟩ := pr
-      have hcont : applyCont F (.exec pc vars cp kk) env (tick m) = some (q0, m1) := by
-        cases F with
-        | zero => simp [evalThunk] at hev
-        | succ F' =>
-          rw [continuation_resumes]
-          rw [evalThunk] at hev
-          exact hev
-      subst hans
-      have hgA : GoodA fl F (k0 + 1) (Thunk.afterCut pc vars kk [] [] env cp) ({} : Pr)
-          (lv'.map Prod.fst) (tick m) := by
-        intro x mx hx
-        rw [← hf, hlive'] at hx
-        exact hgood x mx (.cut (ts := []) rfl (by simp [cutPromise]) rfl hmem hx)
-      obtain ⟨hspec, hst1, hnv1⟩ := cont_run tmpl max prog hprog F _ env (tick m) q0 m1 hcont
-        (fun hfl => hgA _ _ .here hfl _ hev) lv' R q nv
-        ⟨N, σ, π, D, G', hN, hW, hcg, hgr', hco', hq, trivial⟩ (stOK_tick hst) n d r' hs
-      have hlv1 : lv'.map Prod.fst = push ({} : Pr).id (lv'.map Prod.fst) := by simp [push]
-      rcases after_child ihP0 hda hgA (by exact hev) hlv1 hspec hok' hst1 hlt rfl with
-        hill | ⟨m2, hm, hf2, _⟩ | ⟨sig1, m2, hm, hne, hresA⟩
-      · subst hill
-        exact Or.inl rfl
-      · right
-        cases k0 with
-        | zero => simp [dfsP] at hf2
-        | succ k' =>
-          rw [leaf_ok' rfl rfl] at hf2
-          simp only [Option.some.injEq, Prod.mk.injEq] at hf2
-          obtain ⟨rfl, rfl⟩ := hf2
-          rcases hm.stop with ⟨_, h2, h3⟩ | ⟨_, _, h1, _⟩ | ⟨h1, _⟩ | ⟨_, _, _, _, _, h1, _⟩
-          · refine ⟨by rw [afterCut_answers]; exact hm.ans, Or.inr (Or.inl ⟨cp, l, rfl, ?_, hlcp, h3⟩), hm.st, Nat.le_trans hnv1 hm.nvar⟩
-            simp [SLD.afterCut, h2]
-          · cases h1
-          · cases h1
-          · cases h1
-      · right
-        rcases hm.stop with ⟨h1, _, _⟩ | ⟨c', l', h1, h2, h3, h4⟩ | ⟨h1, h2⟩ | ⟨F', c1, c2, ex, co, h1, h2⟩
-        · exact absurd h1 hne
-        · subst h1
-          have hmem' := Lv.mem_of_lev h3
-          have hc0 : c' ≠ 0 := hok'.nz _ hmem'
-          rw [absorb_cut_ne m2 hc0] at hresA
-          simp only [Prod.mk.injEq] at hresA
-          obtain ⟨rfl, rfl⟩ := hresA
-          have hle : l' ≤ l := lev_le_of_drop hok hlcp hmem' rfl
-          refine ⟨by rw [afterCut_answers]; exact hm.ans,
-            Or.inr (Or.inl ⟨c', l', rfl, ?_, lev_of_sub hsub hok.nodup h3, h4⟩), hm.st, Nat.le_trans hnv1 hm.nvar⟩
-          simp [SLD.afterCut, h2, Nat.min_eq_left hle]
-        · subst h1
-          rw [absorb_found] at hresA
-          simp only [Prod.mk.injEq] at hresA
-          obtain ⟨rfl, rfl⟩ := hresA
-          refine ⟨by rw [afterCut_answers]; exact hm.ans, Or.inr (Or.inr (Or.inl ⟨rfl, ?_⟩)), hm.st, Nat.le_trans hnv1 hm.nvar⟩
-          simp [SLD.afterCut, h2]
-        · subst h1
-          obtain ⟨co', hco''⟩ := absorb_raised 0 (.exc (errT F' c1)) co m2
-          rw [hco''] at hresA
-          simp only [Prod.mk.injEq] at hresA
-          obtain ⟨rfl, rfl⟩ := hresA
-          refine ⟨by rw [afterCut_answers]; exact hm.ans,
-            Or.inr (Or.inr (Or.inr ⟨F', c1, c2, ex, ?_⟩)), hm.st, Nat.le_trans hnv1 hm.nvar⟩
-          cases co' with
-          | none => exact ⟨some cp, rfl, by simp [SLD.afterCut, h2]⟩
-          | some c0 => exact ⟨some c0, rfl, by simp [SLD.afterCut, h2]⟩
+    rcases cut_core ihPall hprog hd hgood hans hlcp hN hW hcg hgr hco hq hbnd hs hok hst hlt with
+      hill | ⟨sigB, rfl, hm⟩
+    · exact Or.inl hill
+    · exact Or.inr (match_afterCut hok hlcp hm)
 
 theorem tp_zero : TPk fl tmpl max prog F 0 := by
   intro p lv m sig m' hd
@@ -288,7 +146,7 @@ theorem t_all (hprog : ∀ c ∈ prog, clauseS fl c = true) : ∀ k : Nat,
       · have : j = k + 1 := by omega
         subst this
         exact tp_succ ih.2.1 ih.2.2 ih.1 hprog,
-     ta_succ ihP hprog, td_succ ihP hprog⟩
+     ta_succ ih.1 hprog, td_succ ihP hprog⟩
 
 theorem tp_all (hprog : ∀ c ∈ prog, clauseS fl c = true) (k : Nat) : TPk fl tmpl max prog F k :=
   (t_all hprog k).1 k (Nat.le_refl k)
